@@ -102,6 +102,29 @@ def drive(rec):
                 cr = Crystal.from_cif_string(cr.to_cif_string())
             elif prov == "loaded-res":
                 cr = Crystal.from_shelx_string(cr.to_shelx_string())
+            elif prov == "loaded-rich-cif":
+                # a CIF as refinement programs write it: besides the atom_site loop there are shorter loops whose names
+                # start with the same word (atom_type_*, atom_site_aniso_* without the first site) and extra scalars
+                # (the file is composed here, not by the library's writer)
+                au = cr.asymmetric_unit
+                labels = [str(x) for x in au.labels]
+                syms = [e.symbol for e in au.elements]
+                occ = au.properties.get("occupation", [1.0] * len(au))
+                L = ["data_rich", "_chemical_name_common 'test compound'", "_cell_measurement_temperature 293",
+                     "_cell_length_a %.12f" % cr.unit_cell.a, "_cell_length_b %.12f" % cr.unit_cell.b,
+                     "_cell_length_c %.12f" % cr.unit_cell.c, "_cell_angle_alpha %.12f" % cr.unit_cell.alpha_deg,
+                     "_cell_angle_beta %.12f" % cr.unit_cell.beta_deg, "_cell_angle_gamma %.12f" % cr.unit_cell.gamma_deg,
+                     "loop_", "_symmetry_equiv_pos_site_id", "_symmetry_equiv_pos_as_xyz"]
+                L += ["%d %s" % (k + 1, str(op)) for k, op in enumerate(cr.space_group.symmetry_operations)]
+                L += ["loop_", "_atom_type_symbol", "_atom_type_description"] + ["%s %sdesc" % (x, x) for x in sorted(set(syms))]
+                L += ["loop_", "_atom_site_label", "_atom_site_type_symbol", "_atom_site_fract_x", "_atom_site_fract_y",
+                      "_atom_site_fract_z", "_atom_site_occupancy"]
+                L += ["%s %s %.12f %.12f %.12f %.12f" % (labels[k], syms[k], au.positions[k][0], au.positions[k][1],
+                                                          au.positions[k][2], float(occ[k])) for k in range(len(au))]
+                if len(labels) > 1:
+                    L += ["loop_", "_atom_site_aniso_label", "_atom_site_aniso_U_11"]
+                    L += ["%s %.4f" % (labels[k], 0.01 * (k + 1)) for k in range(1, len(labels))]
+                cr = Crystal.from_cif_string("\n".join(L) + "\n")
         except Exception as e:      # the first leg of the chain is itself a save + load: its failure is an observation
             t["write_exc"] = "provenance-" + prov + ":" + type(e).__name__
             return t
@@ -200,7 +223,7 @@ def run(ctx):
                 if fmt == "poscar" and len(r["ops"]) > 96 and k > 0:
                     continue
                 via = rng.choice(["string", "file"])
-                prov = rng.choice(["memory", "memory", "loaded-cif", "loaded-res"])
+                prov = rng.choice(["memory", "memory", "loaded-cif", "loaded-res", "loaded-rich-cif"])
                 jobs.append((r, ctx.seed * 15485863 + i * 101 + k * 7 + len(fmt), fmt, via, prov))
     recs = [x for x in pool_map(gen, jobs) if "__none__" not in x]
     traces = pool_map(drive, recs)
@@ -209,7 +232,7 @@ def run(ctx):
     ctx.rule = ("every one of the %d tabulated settings x %d seeded crystals x {CIF, SHELX .res, POSCAR}: 1-4 sites (general and special "
                 "positions, labels El<digits><suffix>, partial occupancies for CIF) on grids N in {12,24,48}, cells from a symmetrised "
                 "integer Gram matrix, written and re-read through the string functions or save()/load() on files, the crystal built in memory "
-                "or itself loaded from CIF / .res; every trace is non-trivial" % (len(rows), reps))
+                "or itself loaded from CIF / .res / a CIF carrying further loops (atom_type_*, atom_site_aniso_*) and scalars; every trace is non-trivial" % (len(rows), reps))
     ctx.explanation = "settings enumerated completely for all three formats; cells, sites, routes and provenance sampled"
     ctx.assumptions = ["cell parameters compared at 1e-6 (2e-6 for .res, which rounds to 6 decimals); coordinates projected to the grid "
                        "with residual <= 1e-8; the .res dialect written by chmpy has no occupancy column, so occupancy is demanded for CIF only",
